@@ -94,6 +94,55 @@ def jacobiDer [BEq K] (n : Nat) (al be x : K) : K :=
   | 0 => ofInt 0
   | k+1 => (ofFrac 1 2 * (ofInt (k+1) + al + be + ofInt 1)) * jacobi k (al + ofInt 1) (be + ofInt 1) x
 
+/-! ## sequence forms (`*_der_seq`): the sweeps as the source runs them -/
+
+/-- locals `(Pnm2, Pnm1)` of `hermite_He_der_seq` on entry to iteration `nn = k + 3` -/
+def heSeqState (x : K) : Nat → K × K
+  | 0 => (x, x * x - ofInt 1)
+  | k+1 => let r := heSeqState x k; (r.2, x * r.2 - (ofInt (k+3) - ofInt 1) * r.1)
+
+/-- row of `hermite_He_der_seq` for order `n`: explicit `0, 1, 2x`, then `nn · Pnm1` inside the loop -/
+def heDerSeqRow (n : Nat) (x : K) : K :=
+  match n with
+  | 0 => ofInt 0
+  | 1 => ofInt 1
+  | 2 => ofInt 2 * x
+  | k+3 => ofInt (k+3) * (heSeqState x k).2
+
+/-- locals `(Pnm2, Pnm1)` of `hermite_H_der_seq` on entry to iteration `nn = k + 3` -/
+def hSeqState (x : K) : Nat → K × K
+  | 0 => (ofInt 2 * x, ofInt 4 * (x * x) - ofInt 2)
+  | k+1 => let r := hSeqState x k; (r.2, ofInt 2 * x * r.2 - (ofInt 2 * (ofInt (k+3) - ofInt 1)) * r.1)
+
+/-- row of `hermite_H_der_seq` for order `n`: explicit `0, 2, 4·(2x)`, then `2 nn · Pnm1` inside the loop -/
+def hDerSeqRow (n : Nat) (x : K) : K :=
+  match n with
+  | 0 => ofInt 0
+  | 1 => ofInt 2
+  | 2 => ofInt 4 * (ofInt 2 * x)
+  | k+3 => ofInt 2 * ofInt (k+3) * (hSeqState x k).2
+
+/-- locals `(Pnm1, Pn)` of `jacobi_der_seq` on entry to iteration `i = k + 3` (polynomials of shape `(α+1, β+1)`) -/
+def jacSeqState [BEq K] (al be x : K) : Nat → K × K
+  | 0 =>
+    let a1 := al + ofInt 1
+    let b1 := be + ofInt 1
+    let p1 := a1 + ofInt 1 + (a1 + b1 + ofInt 2) * ((x - ofInt 1) / ofInt 2)
+    let t := jacABC 1 a1 b1
+    (p1, (t.1 * x + t.2.1) * p1 - t.2.2)
+  | k+1 =>
+    let r := jacSeqState al be x k
+    let t := jacABC (k+2) (al + ofInt 1) (be + ofInt 1)
+    (r.2, (t.1 * x + t.2.1) * r.2 - t.2.2 * r.1)
+
+/-- row of `jacobi_der_seq` for order `n`: explicit orders 0, 1, 2, 3, then `Pnm1 · ½(i+α+β+1)` after the shift inside the loop -/
+def jacobiDerSeqRow [BEq K] (n : Nat) (al be x : K) : K :=
+  match n with
+  | 0 => ofInt 0
+  | 1 => ofFrac 1 2 * (ofInt 1 + al + be + ofInt 1)
+  | 2 => (jacSeqState al be x 0).1 * (ofFrac 1 2 * (ofInt 2 + al + be + ofInt 1))
+  | k+3 => (jacSeqState al be x k).2 * (ofFrac 1 2 * (ofInt (k+3) + al + be + ofInt 1))
+
 /-! ## polynomials as coefficient lists (the formal-derivative oracle) -/
 
 structure Poly (K : Type) where
